@@ -53,7 +53,7 @@ Qed.
 Lemma resolve_py dim s : (Z.of_nat dim <= i64_max)%Z ->
   sel_in I64 s = true -> resolve dim s = py_resolve dim s.
 Proof.
-  intros Hd Hs. unfold resolve, py_resolve. rewrite view_bounds_py; auto. lia.
+  intros Hd Hs. unfold resolve, py_resolve. rewrite view_bounds_py; auto. unfold i64_max, wide_max in *. lia.
 Qed.
 
 Lemma rep_dims H W sh w : Rep H W sh w -> w_h w <= Nat.max H W /\ w_w w <= Nat.max H W.
@@ -484,5 +484,17 @@ Section InsertAt.
   Proof.
     intros Hb. unfold insert_at.
     destruct (N.leb_spec 18446744073709551616 (r * N.of_nat (sh_width sh) + c)); [reflexivity|lia].
+  Qed.
+
+  Lemma insert_at_beyond (sh : shape) (data : list A) (r c : N) items :
+    (18446744073709551615 <= r * N.of_nat (sh_width sh) + c)%N ->
+    insert_at sh data r c items = None \/ insert_at sh data r c items = Some data.
+  Proof.
+    intros Hb. unfold insert_at.
+    destruct (N.leb_spec 18446744073709551616 (r * N.of_nat (sh_width sh) + c)); [left; reflexivity|].
+    destruct (N.eqb_spec (r * N.of_nat (sh_width sh) + c) 18446744073709551615) as [E|E]; [|lia].
+    destruct items as [|x items]; [|left; reflexivity]. cbn [andb]. right.
+    destruct (N.leb_spec (N.of_nat (length (mut_offsets sh (length data)))) (r * N.of_nat (sh_width sh) + c)); [reflexivity|].
+    rewrite combine_nil. reflexivity.
   Qed.
 End InsertAt.
